@@ -363,6 +363,24 @@ def run(ctx: Ctx) -> int:
             # a component with 128 or more fair random outputs underflows float32 (recorded finding, identified per circuit)
             fk = f"float32-underflow:ghz-xx-{n}" if (kind == "xx" and n >= 128) else None
             check_shots(ctx, ghz(n, kind, rng), f"ghz-{kind}", 6 if quick else 20, finding_key=fk)
+    # deterministic correlated-error chains (3..6 links, random Pauli products, probabilities 0/1) inside Clifford circuits
+    for rep in range(10 if quick else 120):
+        if time.time() > t_end:
+            break
+        nq = int(rng.integers(3, 7))
+        pre = gen_clifford(rng, nq, depth=nq, with_feedback=False).split("\n")[:-1]
+        pre = [l for l in pre if not l.startswith(("M", "R"))]
+        links = []
+        for j in range(int(rng.integers(3, 7))):
+            qs = rng.choice(nq, size=int(rng.integers(1, 3)), replace=False)
+            links.append(f"{'E' if j == 0 else 'ELSE_CORRELATED_ERROR'}({int(rng.random() < (0.3 if j < 2 else 0.6))}) " +
+                         " ".join(f"{'XYZ'[int(rng.integers(0, 3))]}{int(q)}" for q in qs))
+        text = "\n".join(pre + links + ["M " + " ".join(map(str, range(nq)))])
+        check_shots(ctx, text, "clifford-correlated-chain", 4)
+    check_shots(ctx, "E(0) X0 X2\nELSE_CORRELATED_ERROR(1) X1\nELSE_CORRELATED_ERROR(1) X0\nM 0 1 2", "clifford-correlated-chain", 2)
+    for k in (5, 6, 8):      # long chains whose last alternative fires with certainty: exactly one qubit is flipped
+        check_shots(ctx, "\n".join(f"{'E' if j == 0 else 'ELSE_CORRELATED_ERROR'}({1 if j == k - 1 else 0}) X{j}" for j in range(k)) + "\nM " + " ".join(map(str, range(k))),
+                    "clifford-correlated-chain", 2)
     # QEC memory circuits, noiseless
     for task, d, r in ([("repetition_code:memory", 3, 2), ("surface_code:rotated_memory_z", 3, 2), ("color_code:memory_xyz", 3, 2)] if quick else
                        [("repetition_code:memory", 5, 3), ("surface_code:rotated_memory_z", 3, 3), ("surface_code:rotated_memory_x", 3, 2),
@@ -408,21 +426,6 @@ def run(ctx: Ctx) -> int:
                 if rng.random() < 0.5:
                     out.append(f"{['X_ERROR', 'Z_ERROR', 'Y_ERROR'][int(rng.integers(0, 3))]}({int(rng.integers(0, 2))}) {int(rng.integers(0, nq))}")
             check_shots(ctx, "\n".join(out[:-1] + [out[-1]]) if out[-1].startswith("M ") else "\n".join(out), f"clifford-dense-noise-{nq}q", 4)
-    # deterministic correlated-error chains (3..6 links, random Pauli products, probabilities 0/1) inside Clifford circuits
-    for rep in range(10 if quick else 120):
-        if time.time() > t_end + 110:
-            break
-        nq = int(rng.integers(3, 7))
-        pre = gen_clifford(rng, nq, depth=nq, with_feedback=False).split("\n")[:-1]
-        pre = [l for l in pre if not l.startswith(("M", "R"))]
-        links = []
-        for j in range(int(rng.integers(3, 7))):
-            qs = rng.choice(nq, size=int(rng.integers(1, 3)), replace=False)
-            links.append(f"{'E' if j == 0 else 'ELSE_CORRELATED_ERROR'}({int(rng.random() < (0.3 if j < 2 else 0.6))}) " +
-                         " ".join(f"{'XYZ'[int(rng.integers(0, 3))]}{int(q)}" for q in qs))
-        text = "\n".join(pre + links + ["M " + " ".join(map(str, range(nq)))])
-        check_shots(ctx, text, "clifford-correlated-chain", 4)
-    check_shots(ctx, "E(0) X0 X2\nELSE_CORRELATED_ERROR(1) X1\nELSE_CORRELATED_ERROR(1) X0\nM 0 1 2", "clifford-correlated-chain", 2)
     nm = check_mechanisms(ctx, rng, 4 if quick else 60) if time.time() < t_end + 120 else 0
     ctx.cov["mechanisms_checked"] = nm
     if ctx.broken and not ctx.violations:
